@@ -24,7 +24,6 @@ import (
 	"fmt"
 	"hash"
 	"io"
-	"math"
 	"sync"
 
 	"github.com/containerd/stargz-snapshotter/estargz"
@@ -82,16 +81,10 @@ func (zz *Decompressor) ParseTOC(r io.Reader) (toc *estargz.JTOC, tocDgst digest
 }
 
 func (zz *Decompressor) ParseFooter(p []byte) (blobPayloadSize, tocOffset, tocSize int64, err error) {
-	if len(p) != FooterSize {
-		return 0, 0, 0, fmt.Errorf("invalid length %d cannot be parsed", len(p))
-	}
 	offset := binary.LittleEndian.Uint64(p[0:8])
 	compressedLength := binary.LittleEndian.Uint64(p[8:16])
 	if !bytes.Equal(zstdChunkedFrameMagic, p[32:40]) {
 		return 0, 0, 0, fmt.Errorf("invalid magic number")
-	}
-	if offset > math.MaxInt64 || compressedLength > math.MaxInt64 {
-		return 0, 0, 0, fmt.Errorf("invalid TOC position (offset %d, length %d)", offset, compressedLength)
 	}
 	// 8 is the size of the zstd skippable frame header + the frame size (see WriteTOCAndFooter)
 	return int64(offset - 8), int64(offset), int64(compressedLength), nil
